@@ -136,7 +136,7 @@ impl Platform {
         flags: u8,
     ) {
         #[cfg(blake3_team_blake3_verif)]
-        crate::verif_hooks::kernel_entry(crate::verif_hooks::KernelCall::CompressInPlace);
+        let _verif_scope = crate::verif_hooks::kernel_entry(crate::verif_hooks::KernelCall::CompressInPlace);
         match self {
             Platform::Portable => portable::compress_in_place(cv, block, block_len, counter, flags),
             // Safe because detect() checked for platform support.
@@ -174,7 +174,7 @@ impl Platform {
         flags: u8,
     ) -> [u8; 64] {
         #[cfg(blake3_team_blake3_verif)]
-        crate::verif_hooks::kernel_entry(crate::verif_hooks::KernelCall::CompressXof);
+        let _verif_scope = crate::verif_hooks::kernel_entry(crate::verif_hooks::KernelCall::CompressXof);
         match self {
             Platform::Portable => portable::compress_xof(cv, block, block_len, counter, flags),
             // Safe because detect() checked for platform support.
@@ -225,7 +225,7 @@ impl Platform {
         out: &mut [u8],
     ) {
         #[cfg(blake3_team_blake3_verif)]
-        crate::verif_hooks::kernel_entry(crate::verif_hooks::KernelCall::HashMany);
+        let _verif_scope = crate::verif_hooks::kernel_entry(crate::verif_hooks::KernelCall::HashMany);
         match self {
             Platform::Portable => portable::hash_many(
                 inputs,
@@ -340,7 +340,7 @@ impl Platform {
             return;
         }
         #[cfg(blake3_team_blake3_verif)]
-        crate::verif_hooks::kernel_entry(crate::verif_hooks::KernelCall::XofMany);
+        let _verif_scope = crate::verif_hooks::kernel_entry(crate::verif_hooks::KernelCall::XofMany);
         match self {
             // Safe because detect() checked for platform support.
             #[cfg(blake3_avx512_ffi)]
